@@ -16,7 +16,9 @@ func VectorAggregation(
 	expr *logql.VectorAggregationExpr,
 ) (StepIterator, error) {
 	var (
-		grouper     = nopGrouper
+		// Without a grouping clause all input series form one group
+		// with an empty label set.
+		grouper     = emptyGrouper
 		groupLabels []logql.Label
 	)
 	if g := expr.Grouping; g != nil {
